@@ -1131,7 +1131,19 @@ class Ev:
                 kwargs.update(d.d)
             else:
                 kwargs[k.arg] = self.eval(k.value, env, mod)
-        return self.call(f, args, kwargs, n, mod)
+        self._param_masks = None
+        result = self.call(f, args, kwargs, n, mod)
+        pm = getattr(self, "_param_masks", None)
+        if pm:
+            # the callee stored into (masked) an array it received: the caller's array is that very object
+            named = [(a, v) for a, v in zip(n.args, args) if isinstance(a, ast.Name)] + \
+                    [(k.value, kwargs.get(k.arg)) for k in n.keywords if k.arg and isinstance(k.value, ast.Name)]
+            for a, v in named:
+                for vid, recs in pm:
+                    if vid == id(v) and "__masks__" in env:
+                        env["__masks__"].setdefault(a.id, []).extend(recs)
+            self._param_masks = None
+        return result
 
     def call(self, f, args, kwargs, n=None, mod=None):
         if isinstance(f, FuncV):
@@ -1279,6 +1291,7 @@ class Ev:
             if args and isinstance(args[0], Obj) and fd.args.args:
                 env["__self__"] = args[0]
             env["__masks__"] = {}
+            self.__dict__.setdefault("_initial_params", {})[id(env)] = {a_.arg: id(env[a_.arg]) for a_ in fd.args.posonlyargs + fd.args.args + fd.args.kwonlyargs if a_.arg in env}
             env["__qual__"] = ref
             env["__locals__"] = _locals_of(fd) - set(closure or {})
             is_gen = _is_gen(fd)
@@ -1295,6 +1308,12 @@ class Ev:
         finally:
             self.depth -= 1
             stack.pop()
+            try:
+                initial = self.__dict__.get("_initial_params", {}).pop(id(env), {})
+                masks = env.get("__masks__", {})
+                self._param_masks = [(initial[p], recs) for p, recs in masks.items() if p in initial and recs] or None
+            except NameError:
+                pass
 
     # ------------------------------------------------------------ statements
     def exec_body(self, stmts, env, mod):
